@@ -9,9 +9,11 @@
    Hypotheses: Settled (no pending reward on a zero-capacity pledge) and non-negative
    capacities at block starts, both preserved by every operation (step_settled); the
    refutations show they are needed for hand-built states. The sharper per-age bound
-   m <= BlockReward >> age is carried by the correspondence check only.
+   m <= BlockReward >> age (subsidy_cap, Spec.v) is begin_block_mint_age, and the cap never grows
+   again (begin_block_cap_decreases); the same bound is a monitor (mint.within_age_cap) on
+   implementation states.
    The generated obligation single_mint_site says MintCoins is called at one place. *)
-From SaoVerif Require Import Base.Prelude Base.Ints Base.Dec Model.Did Model.Types Model.Monad Model.Bank Model.Select Model.Node Model.Storage Model.Sao Model.Hooks Model.App Model.Spec Proofs.Accumulator.
+From SaoVerif Require Import Base.Prelude Base.Ints Base.Dec Model.Did Model.Types Model.Monad Model.Bank Model.Select Model.Node Model.Storage Model.Sao Model.Hooks Model.App Model.Spec Proofs.Accumulator Proofs.MintCap.
 From RecordUpdate Require Import RecordUpdate.
 Import RecordSetNotations.
 
@@ -82,3 +84,28 @@ Theorem C08_begin_block_mint_refuted : exists cx s s' d,
   ~ exists m, 0 <= m /\ supply s' = supply s + m /\ m <= np_reward (nparams s).
 Proof. exact begin_block_mint_refuted. Qed.
 Print Assumptions C08_begin_block_mint_refuted.
+
+(* sharper - a block mints at most the subsidy of the CURRENT halving age (BlockReward >> age) *)
+Theorem C08_begin_block_mint_age : forall cx s s' d,
+  0 <= np_reward (nparams s) ->
+  (forall po, pool s = Some po -> po_reward po < TOTAL_REWARD) ->
+  step cx s OBeginBlock = (s', OutBlock BOk d) ->
+  0 <= supply s' - supply s <= subsidy_cap s.
+Proof. exact begin_block_mint_age. Qed.
+Print Assumptions C08_begin_block_mint_age.
+
+(* and that subsidy never grows again *)
+Theorem C08_begin_block_cap_decreases : forall cx s s' d,
+  0 <= np_reward (nparams s) ->
+  (forall po, pool s = Some po -> po_reward po < TOTAL_REWARD) ->
+  (forall po', pool s' = Some po' -> po_reward po' < TOTAL_REWARD) ->
+  step cx s OBeginBlock = (s', OutBlock BOk d) ->
+  subsidy_cap s' <= subsidy_cap s.
+Proof. exact begin_block_cap_decreases. Qed.
+Print Assumptions C08_begin_block_cap_decreases.
+
+Theorem C08_subsidy_cap_age1 :
+  let po := mkPool 10 200000000000000 0 0 0 0 10 0 in
+  halving_age po = 1 /\ Z.shiftr 1000 (halving_age po) = 500.
+Proof. exact subsidy_cap_age1. Qed.
+Print Assumptions C08_subsidy_cap_age1.
